@@ -26,6 +26,12 @@ static size_t rand_ncount(vrng* r, short* nc, unsigned maxSym, unsigned tableLog
     {   int anyPos = 0; for (unsigned s = 0; s <= maxSym; s++) if (nc[s] > 0) anyPos = 1; if (!anyPos) return 0; }
     return 1;
 }
+static int g_ofExact;   /* 1: offset-code table with exactly the codes 0..highbit(content + 128 KiB), every one present */
+static size_t rand_ncount_full(vrng* r, short* nc, unsigned maxSym, unsigned tableLog)
+{   int total = 1 << tableLog; if ((unsigned)total < maxSym + 1) return 0;
+    for (unsigned s = 0; s <= maxSym; s++) { nc[s] = 1; total--; }
+    while (total > 0) { unsigned const s = vr_u(r, maxSym + 1); int const add = 1 + (int)vr_u(r, (uint32_t)total); nc[s] = (short)(nc[s] + add); total -= add; }
+    return 1; }
 static size_t build_dict(vrng* r, uint8_t* dst, size_t cap, const uint8_t* content, size_t contentLen, char* feat, size_t fcap)
 {
     uint8_t* op = dst; uint32_t const id = 1 + (uint32_t)vr_u64(r, 0x7FFFFFFF);
@@ -43,9 +49,11 @@ static size_t build_dict(vrng* r, uint8_t* dst, size_t cap, const uint8_t* conte
         size_t const hs = HUF_writeCTable_wksp(op, 400, ct, maxSym, (unsigned)hl, wk, sizeof wk); if (HUF_isError(hs)) return 0; op += hs;
     }
     {   short nc[64]; unsigned ofMax = vr_chance(r, 1, 2) ? 31 : 10 + vr_u(r, 21); unsigned ofLog = 5 + vr_u(r, 4);
+        int const ofExact = g_ofExact; unsigned hbX = 0; { size_t v = contentLen + (128u << 10); while (v >>= 1) hbX++; }
         /* one offset-code table in three has exactly one hole around the highest code the loader requires for this content size */
         if (vr_chance(r, 1, 2)) { unsigned hb = 0; { size_t v = contentLen + (128u << 10); while (v >>= 1) hb++; } { static const int dlt[4] = { -1, 0, 0, 1 }; g_holeAt = (int)hb + dlt[vr_u(r, 4)]; } ofMax = V_MAX(ofMax, (unsigned)g_holeAt + 1); if (ofMax > 31) ofMax = 31; ofLog = 6 + vr_u(r, 3); }
-        { int const ok = (int)rand_ncount(r, nc, ofMax, ofLog); g_holeAt = -1; if (!ok) return 0; }
+        if (ofExact) { g_holeAt = -1; ofMax = hbX; ofLog = 6 + vr_u(r, 3); }      /* exactly the codes the loader requires for this content size, all present, none above */
+        { int const ok = ofExact ? (int)rand_ncount_full(r, nc, ofMax, ofLog) : (int)rand_ncount(r, nc, ofMax, ofLog); g_holeAt = -1; if (!ok) return 0; }
         if (0) return 0; for (unsigned s = 0; s <= ofMax; s++) { if (nc[s] == 0) zeroOF = 1; if (nc[s] == -1) ltone = 1; }
         size_t const s1 = FSE_writeNCount(op, 200, nc, ofMax, ofLog); if (FSE_isError(s1)) return 0; op += s1;
         unsigned const mlMax = vr_chance(r, 1, 2) ? 52 : 20 + vr_u(r, 32); unsigned const mlLog = 5 + vr_u(r, 5);
